@@ -8,3 +8,6 @@ add('C03', 'bounded exhaustive enumeration of circuits x output policies x passe
 add('C18', 'bounded exhaustive enumeration of circuits x passes x pipeline expressions; postcondition predicates and pipeline-vs-sequencing comparison',
     'Postconditions of the five passes are evaluated as predicates on every result over F(n,k,A); 97 pipeline expressions (pipes, lists, nested compositions, cleanup) are compared with manual sequencing of .transform on every circuit. Exhaustive within the bound.',
     'trusted: vmc/refmodel.py reachability/evaluator; bound n+k<=5', 'DESIGN.md 4 C18')
+add('C05', 'bounded exhaustive enumeration of circuits x output selections; CNF model set computed by full truth-table enumeration and compared with reference evaluation; every solver answer replayed',
+    'For every circuit of F(n,k,A), every output policy and every selection of output indices the produced CNF is enumerated over all 2^|vars| assignments: satisfiable-under-x iff all selected outputs true, every cone gate has a variable equal to its value in every model, inputs are variables 1..n; is_circuit_satisfiable is executed once per model the solver environment may return.',
+    'trusted: vmc/refmodel.py, vsat.brute_models (truth-table enumeration); bound n+k<=5, |vars|<=16', 'DESIGN.md 4 C05')
